@@ -146,3 +146,238 @@ theorem lsh_nhood_union (b : Bandit α) (d t : Nat) (pr : Option (List Rat)) (hn
 
 
 end Mab
+
+namespace Mab
+variable {α : Type} [DecidableEq α]
+
+/-! ### bucket contents: exactly the positions of the rows with that hash code -/
+
+/-- positions (offset by `start`) of the rows of `ctxs` whose hash under `plane` is `h`, ascending -/
+def hashIdx (plane : Mat) (ctxs : List Vec) (start : Nat) (h : Nat) : List Nat :=
+  (ctxs.map (contextHash plane)).zipIdx.filterMap fun (p : Nat × Nat) => if p.1 = h then some (p.2 + start) else none
+
+theorem getD_set_eq {κ ν : Type} [DecidableEq κ] (d : Dict κ ν) (k : κ) (v dflt : ν) : (d.set k v).getD k dflt = v := by
+  simp [Dict.getD, Dict.get?_set_eq]
+
+theorem getD_set_ne {κ ν : Type} [DecidableEq κ] (d : Dict κ ν) (k k' : κ) (v dflt : ν) (h : k' ≠ k) :
+    (d.set k v).getD k' dflt = d.getD k' dflt := by
+  simp [Dict.getD, Dict.get?_set_ne _ _ _ _ h]
+
+theorem fold_buckets (idx : Nat → List Nat) (h : Nat) : ∀ (ks : List Nat), ks.Nodup → ∀ (t : Dict Nat (List Nat)),
+    (ks.foldl (fun t k => t.set k (t.getD k [] ++ idx k)) t).getD h [] =
+      t.getD h [] ++ (if h ∈ ks then idx h else []) := by
+  intro ks
+  induction ks with
+  | nil => intro _ t; simp
+  | cons k ks ih =>
+    intro hnd t
+    have hk : k ∉ ks := (List.nodup_cons.mp hnd).1
+    simp only [List.foldl_cons]
+    rw [ih (List.nodup_cons.mp hnd).2]
+    by_cases hh : h = k
+    · subst hh
+      simp [getD_set_eq, hk]
+    · rw [getD_set_ne _ _ _ _ _ hh]
+      have : (h ∈ k :: ks) ↔ (h ∈ ks) := by simp [hh]
+      simp [this]
+
+theorem dedup_spec : ∀ (hs acc : List Nat), acc.Nodup →
+    (hs.foldl (fun acc h => if h ∈ acc then acc else acc ++ [h]) acc).Nodup ∧
+    ∀ x, x ∈ hs.foldl (fun acc h => if h ∈ acc then acc else acc ++ [h]) acc ↔ x ∈ acc ∨ x ∈ hs := by
+  intro hs
+  induction hs with
+  | nil => intro acc h; simp [h]
+  | cons y ys ih =>
+    intro acc hacc
+    simp only [List.foldl_cons]
+    by_cases hy : y ∈ acc
+    · simp only [hy, if_true]
+      obtain ⟨i1, i2⟩ := ih acc hacc
+      refine ⟨i1, ?_⟩
+      intro x; rw [i2 x]; simp only [List.mem_cons]
+      constructor
+      · rintro (h | h); exact Or.inl h; exact Or.inr (Or.inr h)
+      · rintro (h | h | h); exact Or.inl h; subst h; exact Or.inl hy; exact Or.inr h
+    · simp only [hy, if_false]
+      have hn : (acc ++ [y]).Nodup := List.nodup_append.mpr ⟨hacc, by simp, by
+        intro a ha b hb; simp at hb; subst hb; intro e; subst e; exact hy ha⟩
+      obtain ⟨i1, i2⟩ := ih (acc ++ [y]) hn
+      refine ⟨i1, ?_⟩
+      intro x; rw [i2 x]; simp only [List.mem_append, List.mem_singleton, List.mem_cons]
+      tauto
+
+theorem hashIdx_nil_of_not_mem (plane : Mat) (ctxs : List Vec) (start h : Nat)
+    (hn : h ∉ ctxs.map (contextHash plane)) : hashIdx plane ctxs start h = [] := by
+  simp only [hashIdx, List.filterMap_eq_nil_iff]
+  intro p hp
+  have := List.mem_zipIdx_iff_getElem?.mp hp
+  have hm : p.1 ∈ ctxs.map (contextHash plane) := List.mem_of_getElem? this
+  have : p.1 ≠ h := fun e => hn (e ▸ hm)
+  simp [this]
+
+/-- **C11 (buckets).**  After hashing the rows `ctxs` into a table, the bucket of every hash code `h` is
+    the old bucket followed by exactly the positions (offset by the number of rows stored before) of
+    the new rows whose code is `h`, in row order. -/
+theorem lshInsert_getD (plane : Mat) (table : Dict Nat (List Nat)) (ctxs : List Vec) (start h : Nat) :
+    (lshInsert plane table ctxs start).getD h [] = table.getD h [] ++ hashIdx plane ctxs start h := by
+  simp only [lshInsert]
+  obtain ⟨hnd, hmem⟩ := dedup_spec (ctxs.map (contextHash plane)) [] (by simp)
+  have hnd' : (((ctxs.map (contextHash plane)).foldl (fun acc h => if h ∈ acc then acc else acc ++ [h]) []).mergeSort (· ≤ ·)).Nodup :=
+    (List.mergeSort_perm _ _).nodup_iff.mpr hnd
+  have := fold_buckets (fun k => hashIdx plane ctxs start k) h _ hnd' table
+  simp only [hashIdx] at this ⊢
+  rw [this]
+  congr 1
+  split
+  · rfl
+  · next hno =>
+    have hno' : h ∉ ctxs.map (contextHash plane) := by
+      intro hin
+      apply hno
+      rw [List.mem_mergeSort, hmem]
+      exact Or.inr hin
+    exact (hashIdx_nil_of_not_mem plane ctxs start h hno').symm
+
+theorem mem_hashIdx (plane : Mat) (ctxs : List Vec) (start h j : Nat) :
+    j ∈ hashIdx plane ctxs start h ↔ ∃ i, ∃ (hi : i < ctxs.length), contextHash plane (ctxs[i]) = h ∧ j = i + start := by
+  simp only [hashIdx, List.mem_filterMap, Prod.exists]
+  constructor
+  · rintro ⟨c, i, hmem, hsome⟩
+    have hget := List.mem_zipIdx_iff_getElem?.mp hmem
+    simp only [List.getElem?_map] at hget
+    split at hsome
+    · next hc =>
+      simp only [Option.some.injEq] at hsome
+      cases hci : ctxs[i]? with
+      | none => simp [hci] at hget
+      | some row =>
+        simp [hci] at hget
+        obtain ⟨hlt, hrow⟩ := List.getElem?_eq_some_iff.mp hci
+        exact ⟨i, hlt, by rw [hrow, hget]; exact hc, hsome.symm⟩
+    · simp at hsome
+  · rintro ⟨i, hi, hc, rfl⟩
+    refine ⟨contextHash plane ctxs[i], i, ?_, by simp [hc]⟩
+    rw [List.mem_zipIdx_iff_getElem?]
+    simp [List.getElem?_map, List.getElem?_eq_getElem hi]
+
+theorem hashIdx_append (plane : Mat) (c₁ c₂ : List Vec) (h : Nat) :
+    hashIdx plane (c₁ ++ c₂) 0 h = hashIdx plane c₁ 0 h ++ hashIdx plane c₂ c₁.length h := by
+  simp only [hashIdx, List.map_append, List.zipIdx_append, List.filterMap_append, List.length_map]
+  congr 1
+  rw [List.zipIdx_eq_map_add (l := c₂.map (contextHash plane)) (i := 0 + c₁.length)]
+  · simp only [List.filterMap_map, Function.comp_def]
+    congr 1
+    funext p
+    simp only [Nat.zero_add]
+    split <;> simp
+    omega
+
+end Mab
+
+namespace Mab
+variable {α : Type} [DecidableEq α]
+
+/-- every table's buckets list exactly the stored rows with that hash code -/
+def Bandit.LshInv (b : Bandit α) : Prop :=
+  b.planes.length = b.tables.length ∧
+  ∀ (t : Nat) (hp : t < b.planes.length) (ht : t < b.tables.length) (h : Nat),
+    (b.tables[t]).getD h [] = hashIdx (b.planes[t]) (b.hist.map (·.ctx)) 0 h
+
+theorem drawPlanes_length (nCols nDim : Nat) : ∀ (l : List Nat) (acc : List Mat × Rng),
+    (l.foldl (fun (acc : List Mat × Rng) _ =>
+      let (v, g) := acc.2.draw { stream := .main, kind := .normal, size := nCols * nDim }
+      (acc.1 ++ [chunk nDim nCols v], g)) acc).1.length = acc.1.length + l.length := by
+  intro l
+  induction l with
+  | nil => intro acc; simp
+  | cons x l ih => intro acc; simp only [List.foldl_cons]; rw [ih]; simp; omega
+
+theorem lshFitOp_tables (b : Bandit α) (ctxs : List Vec) (start : Nat) (hl : b.planes.length = b.tables.length)
+    (t : Nat) (hp : t < b.planes.length) (ht : t < b.tables.length) :
+    ∃ ht' : t < (lshFitOp b ctxs start).tables.length,
+      (lshFitOp b ctxs start).tables[t] = lshInsert (b.planes[t]) (b.tables[t]) ctxs start := by
+  simp only [lshFitOp]
+  refine ⟨by simp [hl]; omega, ?_⟩
+  simp
+
+/-- `fit` establishes the invariant (planes freshly drawn, tables emptied, every row hashed) -/
+theorem lshInv_fit (b : Bandit α) (d t : Nat) (pr : Option (List Rat)) (hnp : b.np = .lsh d t pr)
+    (hbz : b.lp.binz = none) (batch : Batch α) (o : Oracle) (g : Rng) : (b.impFit batch o g).1.LshInv := by
+  have hnb : npBinarize b.lp batch = (b.lp, batch) := by unfold npBinarize; rw [hbz]; cases b.lp.kind <;> rfl
+  simp only [Bandit.impFit, hnp, hnb]
+  have hlen : (drawPlanes t ((batchWidth batch).getD 0) d g).1.length = t := by
+    simp only [drawPlanes]
+    rw [drawPlanes_length]; simp
+  constructor
+  · simp [lshFitOp, hlen]
+  · intro i hp ht h
+    simp only [lshFitOp] at hp ht ⊢
+    simp only [List.getElem_map, List.getElem_zip, List.getElem_replicate]
+    rw [lshInsert_getD]
+    simp [Dict.getD, Dict.get?]
+
+/-- `partial_fit` preserves it: the new rows are hashed with the same planes and stored under their
+    positions in the accumulated history -/
+theorem lshInv_partialFit (b : Bandit α) (d t : Nat) (pr : Option (List Rat)) (hnp : b.np = .lsh d t pr)
+    (hbz : b.lp.binz = none) (batch : Batch α) (o : Oracle) (g : Rng) (hinv : b.LshInv) :
+    (b.impPartialFit batch o g).1.LshInv := by
+  have hnb : npBinarize b.lp batch = (b.lp, batch) := by unfold npBinarize; rw [hbz]; cases b.lp.kind <;> rfl
+  obtain ⟨hl, hb⟩ := hinv
+  simp only [Bandit.impPartialFit, hnp, hnb]
+  constructor
+  · simp [lshFitOp, hl]
+  · intro i hp ht h
+    simp only [lshFitOp] at hp ht ⊢
+    simp only [List.getElem_map, List.getElem_zip]
+    rw [lshInsert_getD]
+    have hp' : i < b.planes.length := by simpa using hp
+    have ht' : i < b.tables.length := by rw [← hl]; exact hp'
+    rw [hb i hp' ht' h, List.map_append, hashIdx_append]
+    simp
+
+/-- **C11 (exact neighbourhood).**  In a state satisfying the invariant — i.e. after `fit` and any number
+    of `partial_fit` calls — the neighbourhood of a query is *exactly* the set of stored rows (positions
+    in the accumulated history) that share the query's hash code, hence its sign pattern, in at least
+    one table. -/
+theorem lsh_nhood_exact (b : Bandit α) (d t : Nat) (pr : Option (List Rat)) (hnp : b.np = .lsh d t pr)
+    (hinv : b.LshInv) (q : Vec) (ds : List Rat) (ks : List Nat) (i : Nat) :
+    i ∈ (b.selectIdx q ds ks).1 ↔
+      ∃ (tb : Nat) (hp : tb < b.planes.length) (hi : i < b.hist.length),
+        contextHash (b.planes[tb]) (b.hist[i]).ctx = contextHash (b.planes[tb]) q := by
+  obtain ⟨hl, hb⟩ := hinv
+  rw [lsh_nhood_union b d t pr hnp]
+  constructor
+  · rintro ⟨pt, hpt, hmem⟩
+    obtain ⟨tb, htb, hget⟩ := List.mem_iff_getElem.mp hpt
+    have hp : tb < b.planes.length := by simp at htb; omega
+    have ht : tb < b.tables.length := by simp at htb; omega
+    have hpt' : pt = (b.planes[tb], b.tables[tb]) := by rw [← hget]; simp
+    rw [hpt'] at hmem
+    simp only at hmem
+    rw [hb tb hp ht] at hmem
+    obtain ⟨j, hj, hc, hij⟩ := (mem_hashIdx _ _ _ _ _).mp hmem
+    simp only [Nat.add_zero] at hij
+    subst hij
+    have hj' : i < b.hist.length := by simpa using hj
+    refine ⟨tb, hp, hj', ?_⟩
+    simpa using hc
+  · rintro ⟨tb, hp, hi, hc⟩
+    have ht : tb < b.tables.length := by rw [← hl]; exact hp
+    refine ⟨(b.planes[tb], b.tables[tb]), ?_, ?_⟩
+    · apply List.mem_iff_getElem.mpr
+      exact ⟨tb, by simp; omega, by simp⟩
+    · simp only
+      rw [hb tb hp ht]
+      apply (mem_hashIdx _ _ _ _ _).mpr
+      exact ⟨i, by simpa using hi, by simpa using hc, by simp⟩
+
+/-- consequently a stored row is always in the neighbourhood of a query equal to it, or to a positive
+    multiple of it -/
+theorem self_collision (b : Bandit α) (d t : Nat) (pr : Option (List Rat)) (hnp : b.np = .lsh d t pr)
+    (hinv : b.LshInv) (hpl : 0 < b.planes.length) (i : Nat) (hi : i < b.hist.length) (c : Rat) (hc : 0 < c)
+    (ds : List Rat) (ks : List Nat) :
+    i ∈ (b.selectIdx (vsmul c (b.hist[i]).ctx) ds ks).1 := by
+  rw [lsh_nhood_exact b d t pr hnp hinv]
+  exact ⟨0, hpl, hi, (hash_scale_invariant _ _ c hc).symm⟩
+
+end Mab
